@@ -813,13 +813,22 @@ V("C17", "setstate_initialized_too_early", "fire", "R17.d", (Z, """        state
 
         for name,value in state.items():
             setattr(self,name,value)
-        self._param__private.initialized = True
-""", """        state.pop('param', None)
+        # The restored object starts""", """        state.pop('param', None)
 
         self._param__private.initialized = True
         for name,value in state.items():
             setattr(self,name,value)
+        # The restored object starts"""))
+V("C17", "setstate_keeps_transient_state", "fire", "R17.f", (Z, """        self._param__private.parameters_state = {
+            "BATCH_WATCH": False,
+            "TRIGGER": False,
+            "events": [],
+            "watchers": []
+        }
+        self._param__private.initialized = True
+""", """        self._param__private.initialized = True
 """))
+V("C17", "setstate_rebinds_by_class", "fire", "R17.e", (Z, "                        elif get_method_owner(fn) is watcher.inst:", "                        elif isinstance(get_method_owner(fn), type(self)):"))
 V("C17", "parameter_getstate_own_slots_only", "fire", "R17.c", (Z, "        return {slot: getattr(self, slot) for slot in self.__class__._all_slots_}", "        return {slot: getattr(self, slot) for slot in self.__slots__}"))
 
 # ======================================================================= C19
@@ -911,3 +920,68 @@ V("C01", "list_rejects_none_despite_allow_none", "fire", "R01.h", (P, """    def
         if not isinstance(val, list):"""))
 V("C01", "benign_callable_condition_reordered", "benign", None, (P, "        if (allow_None and val is None) or callable(val):\n            return\n        raise ValueError(\n            f\"{_validate_error_prefix(self)} only takes a callable object, \"",
   "        if callable(val) or (val is None and allow_None):\n            return\n        raise ValueError(\n            f\"{_validate_error_prefix(self)} only takes a callable object, \""))
+
+V("C10", "rx_sync_result_keeps_token", "fire", "R10.g", (R, """            self._current_task = None
+            self._current_ = current = obj
+""", """            self._current_ = current = obj
+"""))
+V("C10", "supersede_cancel_only_if_done", "fire", "R10.e", (Z, """            self_.self._param__private.async_refs.pop(pname).cancel()
+            self_.self._param__private.async_refs[pname] = current_task
+""", """            if running_task.done():
+                running_task.cancel()
+            self_.self._param__private.async_refs[pname] = current_task
+"""))
+V("C09", "invalidation_skips_root_params", "fire", "R09.e", (R, "            params[0].owner.param._watch(self._invalidate_current, [p.name for p in params], precedence=-1)",
+  "            params[0].owner.param._watch(self._invalidate_current, [p.name for p in params if p not in self._root._fn_params], precedence=-1)"))
+V("C09", "invalidate_current_early_return_when_dirty", "fire", "R09.f", (R, "        if all(event.obj is self._trigger for event in events):\n            return\n        self._dirty = True",
+  "        if self._dirty or all(event.obj is self._trigger for event in events):\n            return\n        self._dirty = True"))
+V("C13", "memo_from_base_memos", "fire", "R13.d", (Z, """        for class_ in classlist(cls):
+            for name, val in class_.__dict__.items():
+                if isinstance(val, Parameter):
+                    paramdict[name] = val
+
+        # We only want the cache""", """        for base in cls.__bases__[::-1]:
+            if isinstance(base, ParameterizedMetaclass):
+                paramdict.update(base.param._cls_parameters)
+        for name, val in cls.__dict__.items():
+            if isinstance(val, Parameter):
+                paramdict[name] = val
+
+        # We only want the cache"""))
+V("C13", "benign_memo_walks_mro_attribute", "benign", None, (Z, "        for class_ in classlist(cls):\n            for name, val in class_.__dict__.items():\n                if isinstance(val, Parameter):\n                    paramdict[name] = val\n\n        # We only want the cache",
+  "        for class_ in reversed(cls.__mro__):\n            for name, val in class_.__dict__.items():\n                if isinstance(val, Parameter):\n                    paramdict[name] = val\n\n        # We only want the cache"))
+V("C15", "bulk_null_shortcut", "fire", "R15.f", (S, """            deserialized = pobj.param[name].deserialize(value)
+            components[name] = deserialized""", """            if value is None or value == 'null':
+                components[name] = None
+                continue
+            components[name] = pobj.param[name].deserialize(value)"""))
+V("C16", "schema_from_class_parameters", "fire", "R16.e", (Z, "        return serializer.schema(self_or_cls, safe=safe, subset=subset)", "        return serializer.schema(self_.cls, safe=safe, subset=subset)"))
+V("C18", "listselector_snapshot_extend", "fire", "R18.f", (P, """            for v in val:
+                self._ensure_value_is_in_objects(v)
+
+    def _validate_type(self, val):""", """            objects = self.objects
+            self._objects.extend(v for v in val if v not in objects)
+
+    def _validate_type(self, val):"""))
+V("C19", "hash_and_seed_memoised", "fire", "R19.a", (N, """        hashval = self._hashfn(self.time_fn(), param.random_seed)
+        self.random_generator.seed(hashval)
+""", """        key = (self.time_fn(), param.random_seed)
+        if key == getattr(self, '_seeded_for', None):
+            return
+        hashval = self._hashfn(*key)
+        self.random_generator.seed(hashval)
+        self._seeded_for = key
+"""))
+V("C12", "empty_containers_not_recopied", "fire", "R12.c", (Z, '        if _is_mutable_container(v) and s != "default":\n            setattr(p, s, copy.copy(v))', '        if v and _is_mutable_container(v) and s != "default":\n            setattr(p, s, copy.copy(v))'))
+V("C14", "constants_with_none_default_not_referenced", "fire", "R14.d", (Z, "            elif p.constant and pname != 'name':", "            elif p.constant and pname != 'name' and p.default is not None:"))
+V("C14", "outer_guard_ignores_readonly", "fire", "R14.a", (Z, "        if self.constant or self.readonly:\n            if self.readonly:", "        if self.constant:\n            if self.readonly:"))
+V("C04", "dedup_by_equality", "fire", "R04.c", (Z, "            if not any(watcher is w for w in self_._state_watchers):", "            if watcher not in self_._state_watchers:"))
+V("C08", "syncing_scope_no_finally", "fire", "R08.c", (Z, """    parameterized._param__private.syncing = set(old) | set(parameters)
+    try:
+        yield
+    finally:
+        parameterized._param__private.syncing = old
+""", """    parameterized._param__private.syncing = set(old) | set(parameters)
+    yield
+    parameterized._param__private.syncing = old
+"""))
